@@ -72,7 +72,7 @@ func vfGenError(r *verifkit.Rand) *conformancev1.Error {
 	case 4:
 		e.Message = proto.String("100% sure\tit's: \"quoted\"\nnewline")
 	case 5:
-		e.Message = proto.String("trailing percent %")
+		e.Message = proto.String(verifkit.Pick(r, []string{"trailing percent %", "1+1=2 & a+b; x=1&y=2+3", "under_score and +plus+"}))
 	case 6:
 		e.Message = proto.String("ctl\x01\x7f inside")
 	}
